@@ -4,6 +4,7 @@ import Tmv.Model.PubSub
 import Tmv.Model.Index
 import Tmv.Model.BlockIndex
 import Tmv.Model.IndexerService
+import Tmv.Model.EventBus
 namespace Tmv.Drv.C19
 open Tmv Tmv.Query Tmv.PubSub
 
@@ -87,6 +88,7 @@ structure St where
   ps : PubSub.State := PubSub.State.init
   db : Index.DB := []
   bdb : BlockIndex.DB := []
+  bus : PubSub.State := PubSub.State.init   -- the pubsub server inside the EventBus
 
 def Hs : Bytes → Bytes := Sha256.hash
 
@@ -153,6 +155,32 @@ def step (s : St) (toks : List String) : St × String :=
     | some c, some q =>
       let (ps, o) := PubSub.step s.ps (.read c q)
       ({ s with ps := ps }, showOut o)
+    | _, _ => (s, "bad-op")
+  | "bussub" :: r =>
+    match (kv r "c").bind str, (kv r "q").bind str, (kv r "ast").bind parseAst,
+          (kv r "cap").bind String.toNat? with
+    | some c, some q, some ast, some cap =>
+      let (ps, o) := PubSub.step s.bus (.sub c q ast cap)
+      ({ s with bus := ps }, showOut o)
+    | _, _, _, _ => (s, "bad-op")
+  | "bustx" :: r =>
+    -- EventBus.PublishEventTx: flattened ABCI events + tm.event, tx.hash, tx.height
+    match (kv r "id").bind String.toNat?, (kv r "tx").bind str, (kv r "events").bind parseTxEvents with
+    | some id, some tx, some evs =>
+      let (ps, _) := PubSub.step s.bus (.pub (id, EventBus.txEvents Hs id tx evs))
+      ({ s with bus := ps }, "ok")
+    | _, _, _ => (s, "bad-op")
+  | "bushdr" :: r =>
+    match (kv r "id").bind String.toNat?, (kv r "begin").bind parseTxEvents, (kv r "end").bind parseTxEvents with
+    | some id, some b, some e =>
+      let (ps, _) := PubSub.step s.bus (.pub (id, EventBus.headerEvents b e))
+      ({ s with bus := ps }, "ok")
+    | _, _, _ => (s, "bad-op")
+  | "busread" :: r =>
+    match (kv r "c").bind str, (kv r "q").bind str with
+    | some c, some q =>
+      let (ps, o) := PubSub.step s.bus (.read c q)
+      ({ s with bus := ps }, showOut o)
     | _, _ => (s, "bad-op")
   | "stat" :: r =>
     match (kv r "c").bind str with
